@@ -49,6 +49,7 @@ Env ==
   \/ s.st.pc = "resolve" /\ s.st.wake = "none" /\ s.cs # "closed" /\ Use(TRUE) /\ s' = EnvResolve(s, "ResolveAPIError") /\ H(<<"resolve", "err">>)
   \/ s.st.pc = "tcp" /\ s.st.wake = "none" /\ s.cs # "closed" /\ Use(FALSE) /\ s' = EnvTcp(s, "ok") /\ H(<<"tcp", "ok">>)
   \/ s.st.pc = "tcp" /\ s.st.wake = "none" /\ s.cs # "closed" /\ Use(TRUE) /\ s' = EnvTcp(s, "SocketAPIError") /\ H(<<"tcp", "err">>)
+  \/ s.st.pc = "tcp" /\ s.st.wake = "none" /\ s.cs # "closed" /\ Use(TRUE) /\ s' = EnvTcp(s, "okbad") /\ H(<<"tcp", "okbad">>)
   \/ s.fi.out = "idle" /\ s.st.out = "ok" /\ Use(FALSE) /\ s' = UserFinish(s, s.cfg.login) /\ H(<<"finish", s.cfg.login>>)
   \/ s.cfg.noise /\ s.fh = "made" /\ ~s.cm /\ s.tr = "open" /\ Use(FALSE) /\ s' = EnvHandshake(s, "ok") /\ H(<<"handshake", "ok">>)
   \/ s.cfg.noise /\ s.fh = "made" /\ ~s.cm /\ s.tr = "open" /\ Use(TRUE)
